@@ -203,6 +203,10 @@ fn c14_units(tier: Tier) -> Vec<Unit> {
             ctx.st.cases += 1;
             ctx.st.nontrivial += 1;
             ctx.st.exp_ok += 1;
+            {
+                let h = scn[k].text.iter().fold(scn[k].text.len(), |h, &b| h.wrapping_mul(131) ^ b as usize) & 0xffff;
+                ctx.st.outcome_bits[h / 64] |= 1 << (h % 64);
+            }
             if let Some(msg) = check_write(ctx, &scn[k]) {
                 ctx.custom_violation("c14", msg, case_json(&scn[k]), json!(null), json!(null));
             }
